@@ -28,7 +28,7 @@ ASSUMPTIONS = ["observed ranges are those of the baseline days the sub-model was
                "range checks carry a tolerance of 1e-9 of the range",
                "the segment limits are the n-th smallest / largest fitted temperature, n = segment_minimum_count"]
 REQUIRED_REACH = {"fit.done": 10, "submodel.judged": 10, "component.curve_compared": 60, "hook.optimized_result": 100, "component.final_compared": 10,
-                  "component.uncertainty_judged": 60, "component.effective_sample_size_at_its_floor": 1, "data.autocorrelated_residuals": 3, "data.base_load_step": 2, "data.no_positive_slope_on_either_side": 6, "fit.model_object_reused": 3}
+                  "component.uncertainty_judged": 60, "component.effective_sample_size_at_its_floor": 1, "data.autocorrelated_residuals": 3, "data.base_load_step": 2, "data.no_positive_slope_on_either_side": 6, "fit.model_object_reused": 3, "data.one_sided_without_flat_segment": 8}
 
 VIOL = []
 
@@ -209,6 +209,11 @@ def gen_cases(tier, seed):
         i = n + 3000 + j
         cases.append(dict(kind="fit", profile=["current", "legacy"][j % 2], usage=["both", "heating", "cooling"][j % 3], weekend=[0.0, 0.3][(j // 2) % 2], season=0.0,
                           noise=0.05, outliers=0, tz=zones[j % len(zones)], n_days=365, round_T=False, n=i, timeout=2400, reused_model_object=True))
+    for j in range(12 if q else 96):
+        i = n + 5000 + j
+        cases.append(dict(kind="fit", profile=["legacy", "current", "legacy", "dev-nosmooth"][j % 4], usage=["heating", "cooling"][(j // 2) % 2],
+                          usage_shape=["heating-no-flat-segment", "cooling-no-flat-segment"][(j // 2) % 2], days_beyond=[4, 0, 2, 5, 3, 1][j % 6], weekend=0.0, season=0.0,
+                          noise=0.0, outliers=0, tz=zones[j % len(zones)], n_days=365, round_T=False, n=i, timeout=2400))
     na = 8 if q else 60
     for j in range(na):
         i = n + j
@@ -228,6 +233,26 @@ def run_case(spec):
         m, data, df = FT.fit_billing(rng, tz=spec["tz"], kind=spec["usage"], noise=spec["noise"])
     else:
         df = FT.daily_baseline_df(rng, tz=spec["tz"], kind=spec["usage"], n=spec["n_days"], noise=spec["noise"], weekend=spec["weekend"], season=spec["season"], outliers=spec["outliers"])
+        if spec["usage_shape"] if "usage_shape" in spec else False:
+            # one-sided building WITHOUT a flat segment: the balance point is passed on fewer days than a segment needs (a short warm / cold
+            # spell), so the one-sided fit has no temperature-independent days to anchor its base load on
+            Tv = df["temperature"].to_numpy(dtype=float).copy()
+            kk = int(spec["days_beyond"])
+            srt = np.sort(Tv)
+            base, slope = float(rng.uniform(8, 40)), float(rng.uniform(0.5, 2.0))
+            if spec["usage_shape"] == "heating-no-flat-segment":
+                hb = float(srt[-kk - 1] + 3.0) if kk else float(srt[-1] + 2.0)
+                if kk:
+                    Tv[np.argsort(Tv)[-kk:]] += 10.0                     # the warm spell
+                y = base + slope * np.maximum(hb - Tv, 0.0)
+            else:
+                cb = float(srt[kk] - 3.0) if kk else float(srt[0] - 2.0)
+                if kk:
+                    Tv[np.argsort(Tv)[:kk]] -= 10.0                      # the cold spell
+                y = base + slope * np.maximum(Tv - cb, 0.0)
+            df["temperature"] = np.round(Tv, 2)
+            df["observed"] = np.round(y + rng.normal(0, 1.0, len(y)), 3)
+            I.reach("data.one_sided_without_flat_segment")
         if spec["round_T"]:
             df["temperature"] = df["temperature"].round(0)             # ties in the temperature order statistics
         if spec.get("ar"):
